@@ -546,4 +546,9 @@ def run(run, model):
     from rules import c05
     run.rule("R08.4", "scope layers are paired (lift::Scope push_layer/pop_layer): shared with C05 R05.3")
     run.try_rule(c05.paired_in_block, model, LIFT, "R08.4")
+    # lambda lifting records a function's converted type after converting it: packages reach it dependency-first in the linked
+    # program as in the whole-program pipeline (shared with C14 R14.1), and a `go` in value position keeps its mode (shared with C01 R01.10)
+    from rules import c14 as _c14b, c01 as _c01b
+    run.try_rule(_c14b.r14_1, model)
+    run.try_rule(_c01b.r01_10, model)
     run.assume("flow of function values (through Vec/Ref/tuples/branches/arguments) is outside this check; see the known finding recorded for ty_contains_closure under C07")
